@@ -92,6 +92,39 @@ class ComputeChecksum(Contract):
         finally:
             os.unlink(p)
 
+    def history_search(self, run):
+        """bounded: the digest is a function of the file's CONTENT at the time of the call -- the same path rewritten in place (same
+        size, modification time restored, as rsync -t / SOURCE_DATE_EPOCH builds do) and a second path holding other bytes of the same
+        size must each get their own digest, whatever was computed before"""
+        import tempfile
+        fn = self.src.mods["treeinfo"].compute_checksum
+        for algo in ("sha256", "md5"):
+            d = tempfile.mkdtemp(prefix="c16_")
+            try:
+                p = os.path.join(d, "boot.iso")
+                for step, data in enumerate((b"A" * 4096, b"B" * 4096, b"C" * 4096)):
+                    st = os.stat(p) if step else None
+                    with open(p, "wb") as f:
+                        f.write(data)
+                    if st is not None:
+                        os.utime(p, ns=(st.st_atime_ns, st.st_mtime_ns))
+                    got = fn(p, algo)
+                    if got != hashlib.new(algo, data).hexdigest().lower():
+                        script = ("import os, tempfile, hashlib, shutil\nimport productmd.treeinfo as T\nd = tempfile.mkdtemp()\np = os.path.join(d, 'boot.iso')\n"
+                                  "bad = None\nfor step, data in enumerate((b'A' * 4096, b'B' * 4096, b'C' * 4096)):\n"
+                                  "    st = os.stat(p) if step else None\n    open(p, 'wb').write(data)\n"
+                                  "    if st is not None: os.utime(p, ns=(st.st_atime_ns, st.st_mtime_ns))\n"
+                                  "    if T.compute_checksum(p, %r) != hashlib.new(%r, data).hexdigest(): bad = step\n"
+                                  "shutil.rmtree(d)\nif bad is not None: REPRODUCED('digest of the rewritten file (step %%d) is the digest of its OLD content' %% bad)\n"
+                                  "NOT_REPRODUCED()\n" % (algo, algo))
+                        return ("digest_of_full_content_lowercase",
+                                "compute_checksum(path, %r) after the file was rewritten in place (same size, mtime restored) returns the digest "
+                                "of the previous content" % algo, script)
+            finally:
+                import shutil
+                shutil.rmtree(d, ignore_errors=True)
+        return None
+
     def describe(self, inputs):
         return "compute_checksum(<file of %d bytes>, %r)" % (inputs["size"], inputs["algo"])
 
